@@ -22,7 +22,12 @@ def infoset(text):
     p.Parse(text.encode("utf-8"), True); flush()
     return ev
 
-WORDS = ["alpha", "beta foo", "foo", "gamma", "x=foo;y=foo", "FOO", "barfoo bar", "", "  foo  ", "délta foo", "http://a.example/x", "see https://b.example and http://c.example", "secure=TRUE; secure=true", "fo"]
+WORDS = ["alpha", "beta foo", "foo", "gamma", "x=foo;y=foo", "FOO", "barfoo bar", "", "  foo  ", "délta foo", "http://a.example/x", "see https://b.example and http://c.example", "secure=TRUE; secure=true", "fo",
+         "page\x0cfoo break", "sep\u2028foo"]      # a form feed / a unicode line separator inside a line: an ordinary character, not a line end (editors, SAST tools and patch count lines by \n)
+def real_lines(t, keepends=True):
+    """lines as editors, SAST tools and patch(1) count them: ended by \n, \r\n or \r only"""
+    out = [x for x in re.split(r"(?<=\n)|(?<=\r)(?!\n)", t) if x]
+    return out if keepends else [x.rstrip("\r\n") for x in out]
 def gen_text(rnd):
     n = rnd.randint(1, 8); nl = rnd.choice(("\n", "\n", "\r\n"))
     lines = [rnd.choice(WORDS) for _ in range(n)]
@@ -60,7 +65,7 @@ def plan(tier, seed):
         else:
             findings = []
             for n, t in files.items():
-                for ln in range(1, len(t.splitlines()) + 1):
+                for ln in range(1, len(real_lines(t)) + 1):
                     if rnd.random() < 0.5: findings.append({"file": n, "line": ln, "id": f"F-{n}-{ln}"})
             jobs.append({"id": f"srx{k}", "kind": "sast-regex", "pat": pat, "repl": repl, "texts": files, "dry": dry, "findings": findings, "files": {n: b64(t.encode()) for n, t in files.items()},
                          "plugins": [{"kind": "sast-regex", "name": "srx", "pattern": pat, "replacement": repl, "findings": findings}], "argv": base + ["--codemod-include", "vfsast:python/srx"] + (["--dry-run"] if dry else []), "monitors": {"snap": False}, "want_before": True})
@@ -129,7 +134,7 @@ def judge(job, res):
     if job["kind"] == "sast-xml-attr": return judge_sast_xml(job, run, css)
     if job["kind"] in ("regex", "sast-regex"):
         for n, t in job["texts"].items():
-            lines = t.splitlines(keepends=True); flines = {f["line"] for f in job.get("findings", []) if f["file"] == n}
+            lines = real_lines(t); flines = {f["line"] for f in job.get("findings", []) if f["file"] == n}
             exp = []; exp_changes = []
             for i, l in enumerate(lines, 1):
                 nl = re.sub(job["pat"], job["repl"], l) if (job["kind"] == "regex" or i in flines) else l
